@@ -9,6 +9,14 @@
 // return of the in-memory connections. Counted observables (handler ran, callback ran, traffic
 // report with its delta, operation after close, panic, goroutines left behind) are judged by
 // spec/DisposeTrace.tla. A seeded free-running variant releases N closers at once.
+//
+// Round 3: registration histories of the resource manager (generated Unreg / Reg steps, driver-made histories over two
+// generations; judge events Own / Drop / Settled and the rule that a disposal call starting while another one may be
+// in flight owes nothing); the statistics kept by the CloudControl double as a read-modify-write (Quiesce.stored,
+// clause TrafficOnce/comp:lost), schedules of the hypothetical design "claim" (generated with eager claims), cloud
+// control failing one call (generated RGetFail / RUpdFail, driver-made "cloud-fault"); pending I/O held for the whole
+// run and released at its end (held.go: close notification of the client tunnel, final report of the server bridge);
+// a registration history on the client tunnel manager (tunnel.go, "mgr-history").
 package main
 
 import (
@@ -49,6 +57,7 @@ type behaviour struct {
 	Rounds  int    `json:"rounds,omitempty"` // hammers: cap on rounds
 	Op      string `json:"op,omitempty"`     // ops: the one operation to invoke on the closed component
 	Legacy  bool   `json:"legacy,omitempty"` // generated from the model of the code as it was before the repairs
+	Design  string `json:"design,omitempty"` // bridge: the model's design when it is a hypothetical one ("claim")
 	Steps   []step `json:"steps,omitempty"`
 }
 
@@ -87,6 +96,7 @@ type base struct {
 	ctx    context.Context
 	cancel context.CancelFunc
 	bl     baseline
+	only   string // leak oracle restricted to goroutines of this package (rigs kept alive across other behaviours)
 }
 
 func newBase(free bool, seed int64) *base {
@@ -166,7 +176,7 @@ func (b *base) unreal(i int, format string, a ...any) *fw.Trace {
 // quiesce: all closers have returned and pending I/O is unblocked; wait for the component's
 // goroutines to wind down and log what is left.
 func (b *base) quiesce(comp string, traffic bool, moved int64) {
-	n, top, detail := leaked(b.bl, grace)
+	n, top, detail := leakedOf(b.bl, grace, b.only)
 	b.rec.add(fw.Event{"ev": "Quiesce", "moved": moved, "traffic": traffic, "leaked": n, "top": top, "detail": detail})
 }
 
@@ -218,6 +228,38 @@ func (b *base) runOp(name string, fn func() error) {
 	b.rec.add(fw.Event{"ev": "Op", "op": name, "res": r.res, "site": r.site, "what": r.what})
 }
 
+// awaitFree waits for the free-running processes of a behaviour (done is closed when all have returned). On a machine
+// under load they may be late: after 10 s the stacks of the goroutines inside tunnox-core are noted and the wait goes on;
+// only when nothing has finished after 40 s is it a driver error (exit 2) - with those stacks, so that a genuine deadlock
+// of the component can be told from starvation. nil: all returned, go on.
+func awaitFree(done <-chan struct{}, what string) *fw.Trace {
+	select {
+	case <-done:
+		return nil
+	case <-time.After(10 * time.Second):
+	}
+	var sb strings.Builder
+	n := 0
+	for _, g := range dumpGoroutines() {
+		if !strings.Contains(g.text, "\n"+repoPrefix) || n >= 8 {
+			continue
+		}
+		n++
+		ls := strings.Split(g.text, "\n")
+		if len(ls) > 11 {
+			ls = ls[:11]
+		}
+		sb.WriteString(strings.Join(ls, " | ") + " || ")
+	}
+	select {
+	case <-done:
+		fmt.Fprintf(os.Stderr, "[c16] %s were late (more than 10 s)\n", what)
+		return nil
+	case <-time.After(30 * time.Second):
+		return &fw.Trace{Status: fw.DriverError, Note: what + " did not finish within 40 s; goroutines inside tunnox-core after 10 s: " + sb.String()}
+	}
+}
+
 func isClosedErr(err error) bool {
 	s := strings.ToLower(err.Error())
 	return strings.Contains(s, "closed") || strings.Contains(s, "eof") || strings.Contains(s, "cancel")
@@ -230,6 +272,9 @@ func drive(env *fw.Env, b fw.Behaviour) *fw.Trace {
 	}
 	defer setHook(nil)
 	seed := env.Seed*100003 + int64(beh.Seed)
+	if wantHeld.Load() {
+		heldOnce.Do(func() { startHeld(env.Seed * 100003) }) // before anything else is driven: the holds last as long as the run
+	}
 	var t *fw.Trace
 	t0 := time.Now()
 	defer func() {
@@ -270,6 +315,8 @@ func drive(env *fw.Env, b fw.Behaviour) *fw.Trace {
 		t = driveHammer(beh, seed)
 	case "resmgr":
 		t = driveResMgr(beh, seed)
+	case "held":
+		t = driveHeld(beh, seed)
 	default:
 		return &fw.Trace{Status: fw.DriverError, Note: "unknown scene " + beh.Scene}
 	}
@@ -312,7 +359,9 @@ func suiteJob(name, suite string, emit bool) fw.TLCJob {
 // thinning: drive one in N of the generated behaviours of a class. Class sizes of the "gen" suite:
 // latch 8145 (x 6 component kinds), tunnel 7144 repaired / 3520 as-it-was, Connecting 180 / 48, Starting 722,
 // bridge 49150 (about 15000 with the context-cancelled-while-flowing / > 1 MiB paths, 9349 with a target connection
-// arriving during Close, driven three times as densely) / 12751, resmgr 220 (all driven);
+// arriving during Close, driven three times as densely) / 12751, resmgr about 1500 (one in five driven);
+// round 3: + about 21000 of the hypothetical design "claim" (only those with two reports in flight are driven) and
+// about 9000 with a failing cloud-control call;
 // "genbig": latch 28965 (x 6), tunnel 10304 / 12816, bridge 17187 / 39634.
 func thinning(tier, src, scene, start string, legacy bool) int {
 	quick := tier == "quick"
@@ -326,12 +375,17 @@ func thinning(tier, src, scene, start string, legacy bool) int {
 			}
 			return 25
 		}
-		return 30
+		return 45
 	}
 	switch {
+	case scene == "resmgr":
+		if quick {
+			return 5
+		}
+		return 1
 	case scene == "latch":
 		if quick {
-			return 130
+			return 160
 		}
 		return 16
 	case scene == "tunnel" && start == "Connecting":
@@ -354,13 +408,33 @@ func thinning(tier, src, scene, start string, legacy bool) int {
 		return 36
 	case !quick: // bridge
 		if legacy {
-			return 5
+			return 10
 		}
-		return 14
+		return 24
 	case legacy:
 		return 80
 	}
 	return 150
+}
+
+// overlappingReports: does the behaviour have a reporter reading or updating the statistics while another one has
+// begun and not finished its report?
+func overlappingReports(steps []step) bool {
+	inflight := map[string]bool{}
+	for _, st := range steps {
+		switch st.A {
+		case "RGet", "RUpd":
+			for q, on := range inflight {
+				if on && q != st.P {
+					return true
+				}
+			}
+			inflight[st.P] = true
+		case "RSto":
+			inflight[st.P] = false
+		}
+	}
+	return false
 }
 
 // generated is one line printed by Dispose.tla: the configuration and the behaviour prefix.
@@ -384,6 +458,7 @@ func main() {
 		childStartClose(seed, iters)
 		return
 	}
+	only := os.Getenv("C16_ONLY") // development aid: drive the behaviours of one scene only and skip the exhaustive model job
 	probeHooks()
 	fmt.Printf("[c16] hook points present: %s=%v %s=%v\n", hpDispose, hooks.dispose, hpTunnel, hooks.tunnel)
 	fw.Main(&fw.Property{
@@ -392,6 +467,9 @@ func main() {
 		ModelJobs: func(env *fw.Env) []fw.TLCJob {
 			// every configuration of the suite (repaired design: strict property; code as it was: property or a
 			// listed deviation) is an initial state of one TLC run
+			if only != "" {
+				return nil
+			}
 			jobs := []fw.TLCJob{suiteJob("mc", "mc", false)}
 			if env.Tier == "thorough" {
 				jobs = append(jobs, suiteJob("mcbig", "mcbig", false))
@@ -410,7 +488,13 @@ func main() {
 			if err := json.Unmarshal(raw, &g); err != nil {
 				panic(err)
 			}
-			legacy := g.Design == "asis"
+			if only != "" && g.Scene != only {
+				return nil
+			}
+			legacy := g.Design == "asis" || g.Design == "claim"
+			if g.Design == "claim" && !overlappingReports(g.Steps) {
+				return nil // of the claim-only design only the schedules with two reports in flight are of interest
+			}
 			// seeded thinning per class (the whole transition set is generated; what is driven is a sample)
 			keep := func(salt string, oneIn int) bool {
 				if oneIn <= 1 {
@@ -432,6 +516,12 @@ func main() {
 				}
 				return out
 			case "tunnel":
+				for _, st := range g.Steps {
+					if st.A == "NotifyTimeout" { // costs notifyHold of real time: a handful only
+						rate = 120
+						break
+					}
+				}
 				if !keep("", rate) {
 					return nil
 				}
@@ -446,15 +536,22 @@ func main() {
 				if !keep("", rate) {
 					return nil
 				}
-				return []json.RawMessage{fw.MustJSON(behaviour{Scene: "bridge", Legacy: legacy, Steps: g.Steps})}
+				design := ""
+				if g.Design == "claim" {
+					design = g.Design
+				}
+				return []json.RawMessage{fw.MustJSON(behaviour{Scene: "bridge", Legacy: legacy, Design: design, Steps: g.Steps})}
 			case "resmgr":
+				if !keep("", rate) {
+					return nil
+				}
 				return []json.RawMessage{fw.MustJSON(behaviour{Scene: "resmgr", Steps: g.Steps})}
 			}
 			panic("scene " + g.Scene)
 		},
 		ExtraBeh: func(env *fw.Env) []json.RawMessage {
 			var out []json.RawMessage
-			nfree := 80
+			nfree := 60
 			if env.Tier == "thorough" {
 				nfree = 800
 			}
@@ -476,6 +573,10 @@ func main() {
 				out = append(out, fw.MustJSON(behaviour{Scene: "hammer", Comp: c, Closers: 4, Ms: ms[c], Rounds: rounds}))
 			}
 			out = append(out, fw.MustJSON(behaviour{Scene: "tunnel", Op: "startclose", Ms: tms, Rounds: trounds, Seed: 1}))
+			out = append(out, fw.MustJSON(behaviour{Scene: "tunnel", Op: "mgr-history", Seed: 0}), fw.MustJSON(behaviour{Scene: "tunnel", Op: "mgr-history", Seed: 1}))
+			for i := 0; i < 6; i++ { // registration histories of the resource manager
+				out = append(out, fw.MustJSON(behaviour{Scene: "resmgr", Op: "history", Seed: i}))
+			}
 			for i := 0; i < 3; i++ {
 				for _, op := range []string{"flow-ctx", "big-small", "big-large"} {
 					out = append(out, fw.MustJSON(behaviour{Scene: "bridge", Op: op, Seed: i}))
@@ -495,6 +596,28 @@ func main() {
 				out = append(out, fw.MustJSON(behaviour{Scene: "bridge", Free: true, Closers: 2 + i%2, Seed: i}))
 				if i%4 == 0 {
 					out = append(out, fw.MustJSON(behaviour{Scene: "resmgr", Free: true, Closers: 1 + i%3, Seed: i / 4}))
+				}
+			}
+			for i := 0; i < 4; i++ { // cloud control failing once while the bridge shuts down
+				out = append(out, fw.MustJSON(behaviour{Scene: "bridge", Op: "cloud-fault", Seed: i}))
+			}
+			// pending I/O held for as long as the run lasts (longer than any timeout of the code), released at the very end
+			for i := len(heldKeys) - 1; i >= 0; i-- { // last started, first finished: a case's goroutine baseline holds the cases started before it
+				out = append(out, fw.MustJSON(behaviour{Scene: "held", Op: heldKeys[i]}))
+			}
+			if only != "" {
+				var sel []json.RawMessage
+				for _, raw := range out {
+					var b behaviour
+					if json.Unmarshal(raw, &b) == nil && b.Scene == only {
+						sel = append(sel, raw)
+					}
+				}
+				out = sel
+			}
+			for _, raw := range out {
+				if strings.Contains(string(raw), `"scene":"held"`) {
+					wantHeld.Store(true)
 				}
 			}
 			return out
@@ -525,12 +648,14 @@ func main() {
 		JudgeModule: "DisposeTrace",
 		JudgeCfg:    "DisposeTrace.cfg",
 		Rule: "one behaviour per (state, action) transition of Dispose.tla (latch: 3 closers x adder x guarded operation; tunnel: 2-3 closers x completion paths; " +
-			"bridge: closers x copiers x reporters), forced on the real components through hook points, handler/callback/manager/CloudControl doubles and connection doubles; " +
+			"bridge: closers x copiers x reporters x one failing cloud-control call; resmgr: disposers x helper x unregister/re-register), forced on the real components through hook points, handler/callback/manager/CloudControl doubles and connection doubles; " +
 			"non-trivial = realised with at least two Close calls",
 		Assumptions: []string{
 			"idle timeout (5 min timer) and the 30 s periodic report tick are not waited for: the idle path is driven as the call monitorTimeout makes (Close(Timeout)), the periodic reporter through its final branch",
 			"leaked timers are not observable in a goroutine dump; only goroutines are counted",
 			"an operation after close may succeed harmlessly; only panics and hangs are failures",
+			"resource manager: a resource is owed a Dispose only by a DisposeAll / DisposeWithTimeout call that starts after it was registered, before it was unregistered and while no other disposal can be in flight (a call that finds one in flight returns at once by design)",
+			"cloud-control faults hit at most one call per behaviour and never Start's own final report (after which nobody would report again); pending I/O is held for the length of the run (at least 8 s), not for ever",
 		},
 		TrustedBase: []string{"TLC", "spec/DisposeTrace.tla as the reading of C16", "harness/sched gate scheduler", "runtime.Stack goroutine dump parsing (drivers/c16/leak.go)"},
 	})
@@ -635,6 +760,51 @@ func selfTest(env *fw.Env, acc []*fw.Trace) []*fw.Trace {
 				c.Events[roundIdx]["counts"] = m
 			})
 		}
+		if qIdx >= 0 { // the statistics kept by cloud control end up short although every delta was reported
+			q := t.Events[qIdx]
+			if tr, _ := q["traffic"].(bool); tr {
+				if moved, ok := num(q["moved"]); ok && moved > 0 {
+					if _, has := q["stored"]; has {
+						add("lost", func(c *fw.Trace) { c.Events[qIdx]["stored"] = moved - 1 })
+					}
+				}
+			}
+		}
+		// resource manager histories: a re-registered object is never disposed / an unregistered one is still owed
+		settled, ownIdx, dropIdx := false, -1, -1
+		for i, e := range t.Events {
+			h := e["h"]
+			switch e["ev"] {
+			case "Settled":
+				settled = true
+			case "Own":
+				if ownIdx < 0 && strings.HasPrefix(fmt.Sprint(h), "r") && !hasEvent(t, "Drop", h) && hasEvent(t, "Ran", h) {
+					ownIdx = i
+				}
+			case "Drop":
+				if dropIdx < 0 && !hasEvent(t, "Ran", h) {
+					dropIdx = i
+				}
+			}
+		}
+		if settled && ownIdx >= 0 {
+			add("own-never", func(c *fw.Trace) {
+				h := c.Events[ownIdx]["h"]
+				var ev []fw.Event
+				for _, e := range c.Events {
+					if e["ev"] == "Ran" && e["h"] == h {
+						continue
+					}
+					ev = append(ev, e)
+				}
+				c.Events = ev
+			})
+		}
+		if settled && dropIdx >= 0 {
+			add("undrop", func(c *fw.Trace) {
+				c.Events = append(c.Events[:dropIdx], c.Events[dropIdx+1:]...)
+			})
+		}
 		if qIdx >= 0 {
 			add("leak", func(c *fw.Trace) {
 				c.Events[qIdx]["leaked"] = 1
@@ -650,7 +820,29 @@ func selfTest(env *fw.Env, acc []*fw.Trace) []*fw.Trace {
 			})
 		}
 	}
+	fmt.Printf("[c16] selftest corruptions by kind: %v\n", kinds)
 	return out
+}
+
+func hasEvent(t *fw.Trace, kind string, h any) bool {
+	for _, e := range t.Events {
+		if e["ev"] == kind && e["h"] == h {
+			return true
+		}
+	}
+	return false
+}
+
+func num(v any) (int64, bool) {
+	switch x := v.(type) {
+	case int64:
+		return x, true
+	case int:
+		return int64(x), true
+	case float64:
+		return int64(x), true
+	}
+	return 0, false
 }
 
 // isMust: was the action of Ran event i registered (Reg) before the first CloseCall?
